@@ -870,6 +870,29 @@ def _count_form_patterns(I, idx, key_tab, n_layers):
             stack += [y.args[0], y.args[1]]
         else:
             terms.append(y)
+    # count_nonzero([T[1] op x, T[2] op x, ...], axis=0) / sum(...): the same sum, the comparisons stacked in a list
+    if len(terms) == 1 and is_ext_call(terms[0], "numpy.count_nonzero", "numpy.sum"):
+        pos, kws = call_args(terms[0])
+        ax = kws.get("axis") or (pos[1] if len(pos) > 1 else None)
+        seq = strip(pos[0]) if pos else None
+        if seq is not None and is_ext_call(seq, "numpy.array", "numpy.stack", "numpy.vstack") and len(seq.args) >= 2:
+            seq = seq.args[1]
+        if seq is not None and seq.op in ("List", "Tuple") and ax is not None and ax.op == "Const" and ax.attr == 0 and \
+                seq.args and all(t.op == "Compare" for t in seq.args):
+            terms = list(seq.args)
+
+    def layer_of(a):
+        """j if a is the table entry T[j] (directly, or as element k of a constant slice of the table)"""
+        if not (a.op == "Subscript" and a.args[1].op == "Const" and type(a.args[1].attr) is int):
+            return None
+        base, k = a.args[0], a.args[1].attr
+        if base is key_tab:
+            return k if k >= 0 else n_layers + k
+        if base.op == "Subscript" and base.args[0] is key_tab and base.args[1].op == "Slice" and all(
+                x.op == "Const" and (x.attr is None or type(x.attr) is int) for x in base.args[1].args):
+            J = list(range(n_layers))[slice(*(x.attr for x in base.args[1].args))]
+            return J[k] if -len(J) <= k < len(J) else None
+        return None
     if len(terms) >= n_layers - 1 and all(
             t.op == "Compare" or is_ext_call(t, "numpy.zeros", "numpy.zeros_like") or
             (t.op == "Const" and t.attr == 0) for t in terms):
@@ -881,13 +904,12 @@ def _count_form_patterns(I, idx, key_tab, n_layers):
         for c in cmps:
             a, b = c.args
             op_ = c.attr
-            if b.op == "Subscript" and b.args[0] is key_tab:
+            if layer_of(b) is not None:
                 a, b, op_ = b, a, flip.get(op_)
-            if not (a.op == "Subscript" and a.args[0] is key_tab and a.args[1].op == "Const" and
-                    type(a.args[1].attr) is int and op_ in sym):
+            if layer_of(a) is None or op_ not in sym:
                 ok_ = False
                 break
-            seen_j.add(a.args[1].attr)
+            seen_j.add(layer_of(a))
             ops.add(sym[op_])
             xs[I.g.vn(b)] = b
         if ok_ and len(cmps) == n_layers - 1 and seen_j == set(range(1, n_layers)) and len(ops) == 1 and len(xs) == 1:
